@@ -28,6 +28,24 @@ def col(torch, values, grad=True):
     return torch.tensor([[float(v)] for v in values], dtype=torch.float64, requires_grad=grad)
 
 
+import contextlib
+
+
+@contextlib.contextmanager
+def default_dtype(torch, dt):
+    """Run a block under another torch default dtype (the samples stay explicit float64): code that turns a Python
+    number into a default-dtype tensor loses precision there and only there."""
+    old = torch.get_default_dtype()
+    torch.set_default_dtype(dt)
+    try:
+        yield
+    finally:
+        torch.set_default_dtype(old)
+
+
+EXACT = 1e-12      # 'exact up to floating-point rounding': relative to the magnitudes involved (float64 eps = 2.2e-16)
+
+
 def close(a, b, scale=1.0, rel=1e-9):
     if isinstance(a, float) and isinstance(b, float) and (math.isnan(a) or math.isnan(b)):
         return False
